@@ -540,3 +540,25 @@ Theorem C06_route_url_way_back_env : forall O dflt src p e rs n o kw U caps,
     /\ match_back O p pi = Some (C01.mk_dict (C01.items p) (C01.star p) caps).
 Proof. exact route_url_way_back_env. Qed.
 Print Assumptions C06_route_url_way_back_env.
+
+(* ---------------------------------------------------------------- extra elements without a remainder (Proofs/C06_nomatch.v) *)
+Require Import Verif.Proofs.C06_nomatch.
+
+(* no placeholder class contains '/': the route does not match the text its own admissible values give when
+   anything containing a '/' is appended (every matched path has exactly the slashes of the literals) *)
+Theorem C06_no_match_with_slash_suffix : forall O its caps sfx,
+  slash_free O its = true -> C01.caps_ok O None its caps = true -> In 47 sfx ->
+  C01.match_pat O (C01.mkPat its None) (C01.render its caps ++ sfx) = None.
+Proof. exact no_match_with_slash_suffix. Qed.
+Print Assumptions C06_no_match_with_slash_suffix.
+
+(* no remainder, '/'-free placeholder classes, rendered path not ending in '/', at least one extra element:
+   the decoded path route_url / route_path produce is NOT matched by the route (Example elements_no_match_example:
+   /a/{x} + 'e' -> /a/v/e unmatched; with {x:.+} the same path is matched as x = 'v/e') *)
+Theorem C06_elements_without_remainder_no_match : forall O its caps ets,
+  slash_free O its = true -> C01.caps_ok O None its caps = true -> ets <> [] ->
+  endswith_char 47 (C01.render its caps) = false ->
+  C01.match_pat O (C01.mkPat its None)
+    (C01.render its caps ++ elements_suffix (C01.render its caps) ets) = None.
+Proof. exact elements_without_remainder_no_match. Qed.
+Print Assumptions C06_elements_without_remainder_no_match.
